@@ -1,4 +1,5 @@
 """C01 -- compiled circuit computes the function its symbolic circuit denotes (structural clauses)."""
+from ..rules import r6e as r6t_mod
 from ..core import Ctx, Ob, PropSpec
 from ..rules import r1, r3, r4, r4lite, r7i, r8, r10, r11, r12b, r14
 
@@ -28,6 +29,7 @@ def run(ctx: Ctx) -> list[Ob]:
     obs += r12b.param_rewrites(ctx)
     obs += r10.r10i(ctx)
     obs += r7i.rewiring_order(ctx, ['TorchCompiler._compile_circuit'], module='cirkit.backend.torch.compiler', with_outputs=True)
+    obs += r6t_mod.r6t(ctx)
     return obs
 
 
@@ -58,11 +60,12 @@ SPEC = PropSpec(
         " R3l: the offsets by which the address-book builders address fold j of input module k (offset[k] + j) are the exclusive prefix sums of the fold counts -- an accumulate / cumsum over num_folds with a leading 0, or a running variable updated additively; a running offset that is overwritten instead of accumulated is right for one or two input modules and reads another operand's folds from the third on. R3m: no order-changing operation (sorted, reversed, set, .sort()) is applied to a fold index in the modules that build and use address books: entry i of a fold index describes fold i, and the consumers read folds by position."
         ' R14s: successor lists keep one entry per edge -- topological_ordering / layerwise_topological_ordering count predecessors with multiplicity and decrement once per listed successor, so graph_nodes_outgoings appends once per occurrence (no set, no membership guard) and every explicit outcomings_fn is a node_outputs method or a lookup in such a mapping, never a membership filter: c * c has operands (c, c), and a successor listed once while its predecessors are counted twice never becomes ready (the pipeline then reports a cycle instead of compiling the operand first).'
         ' R14t: a membership test `x in mapping` whose left side has, by the annotations of the function, the value type of the annotated dict and not its key type is always False (a match looked up among the modules): the selection bookkeeping it guards is skipped.'
+        ' R6t: a registry class constructed from a mapping it later mutates (add_rule) copies that mapping in its constructor: the compilers are built from the module-level default rule tables, and a registry that keeps the dict it was given makes a rule added to one compiler / pipeline context active in every other one.'
     ),
     not_decided=(
         "numerical equality with the denoted function (the value computed by a correctly shaped and correctly ordered "
         "expression); run-time address-book index arithmetic beyond the gather contracts R4g and the no-op shortcut R3g."
     ),
     run=run,
-    floors={"R14s": 3, "R3l": 2, "R3m": 8, "R10i": 40, "R3g": 2, "R4u": 10, "R7i": 2, "R4g": 6, "R11d": 2, "R4l": 2, "R12b": 7, "R1a": 38, "R1b": 38, "R1c": 170, "R1d": 10, "R4": 8, "R4b": 25, "R8": 12, "R11a": 12, "R11b": 12, "R11c": 10},
+    floors={"R6t": 1, "R14s": 3, "R3l": 2, "R3m": 8, "R10i": 40, "R3g": 2, "R4u": 10, "R7i": 2, "R4g": 6, "R11d": 2, "R4l": 2, "R12b": 7, "R1a": 38, "R1b": 38, "R1c": 170, "R1d": 10, "R4": 8, "R4b": 25, "R8": 12, "R11a": 12, "R11b": 12, "R11c": 10},
 )
